@@ -18,5 +18,12 @@ func verifGoid() uint64
 
 func fastGoid() int64 { return int64(verifGoid()) }
 
+//go:linkname verifMaxAlloc runtime.verifMaxAlloc
+func verifMaxAlloc() uintptr
+
+// LargestAlloc returns the size in bytes of the largest single allocation the process made since the last call
+// (0 below 32 KiB and in builds without the runtime overlay).
+func LargestAlloc() uint64 { return uint64(verifMaxAlloc()) }
+
 // RuntimeSeeded reports whether the build controls the runtime's random source.
 const RuntimeSeeded = true
